@@ -93,7 +93,7 @@ Definition term_isolate_variable (t : pterm) (v : var) : M pterm :=
     let a := get_coefficient t v in
     ret (mk_term (map (fun p => (fst p, qdiv (qneg (snd p)) a))
                       (filter (fun p => negb (String.eqb (fst p) v)) (tvars t)))
-                 (qdiv (tconst t) a)).
+                 (qdiv (qneg (tconst t)) a)).
 
 (* .rename_variable(source, target) *)
 Definition term_rename_variable (t : pterm) (s u : var) : pterm :=
